@@ -131,12 +131,12 @@ pub fn generate(input: TokenStream) -> TokenStream {
                     );
                 }
 
-                let ty = &mut fields
-                    .unnamed
-                    .first_mut()
-                    .expect("Already checked len; qed")
-                    .ty;
-                let ty = parser.get_type(ty);
+                // An empty tuple variant has no field to take the type from;
+                // the error has been reported above.
+                let Some(field) = fields.unnamed.first_mut() else {
+                    continue;
+                };
+                let ty = parser.get_type(&mut field.ty);
 
                 VariantKind::Value(var_ident, ty)
             }
